@@ -68,7 +68,7 @@ Print Assumptions C01_final_state_is_final.
 
 (* no lost wake-up: once nothing is pending, every task execution is final and the workflow is
    completed or PAUSED (by its own `pause` command or the operator; only resume leaves PAUSED and the
-   resumed run is covered again) - all join-free programs, all schedules incl. pause/resume/stop *)
+   resumed run is covered again) - all join-free programs, all schedules incl. duplicated deliveries and pause/resume/stop *)
 Theorem C01_no_stuck_joinfree : forall sp, nojoin sp -> forall u evs,
   forallb live_ev evs = true ->
   let s := run sp u evs in
